@@ -50,12 +50,18 @@ func StrictEscape(s string) string {
 }
 
 // jsonValue renders a leaf value as the JSON value RFC 7951 prescribes.
-func jsonValue(typ string, lex string) any {
+func jsonValue(n *abs.SNode, lex string) any {
+	typ := n.Type
 	switch typ {
-	case "int8", "int16", "int32", "uint8", "uint16", "uint32", "decimal64":
+	case "union":
+		if _, isInt := LexToGoN(n, lex).(int); isInt {
+			return json.Number(lex)
+		}
+		return lex
+	case "int8", "int16", "int32", "uint8", "uint16", "uint32":
 		return json.Number(lex)
-	case "int64", "uint64":
-		return json.Number(lex) // freeconf writes 64-bit numbers as JSON numbers
+	case "int64", "uint64", "decimal64":
+		return lex // RFC 7951 section 6.1: 64-bit numbers and decimal64 are JSON strings
 	case "boolean":
 		return lex == "true"
 	case "empty":
@@ -112,13 +118,13 @@ func jsonObj(f *Fixture, t *abs.Tree, at abs.Path) ordered {
 		case "leaf":
 			if v, ok := t.LeafAt(p); ok {
 				o.keys = append(o.keys, name)
-				o.vals = append(o.vals, jsonValue(n.Type, v[0]))
+				o.vals = append(o.vals, jsonValue(n, v[0]))
 			}
 		case "leaflist":
 			if v, ok := t.LeafAt(p); ok {
 				arr := []any{}
 				for _, x := range v {
-					arr = append(arr, jsonValue(n.Type, x))
+					arr = append(arr, jsonValue(n, x))
 				}
 				o.keys = append(o.keys, name)
 				o.vals = append(o.vals, arr)
